@@ -104,6 +104,10 @@ std::unique_ptr<NodeResult> FunctionCallNode::evaluate(PSC::Context &ctx) {
                 throw PSC::ArrayDirectAccessError(token, ctx);
 
             PSC::Variable &original = *static_cast<PSC::Variable*>(&holder);
+            // the argument was evaluated once for the type check above and is resolved a second time here:
+            // the variable that is actually bound must have the parameter's type as well
+            if (original.type != parameter.type)
+                throw PSC::InvalidArgsError(token, ctx, function->getTypes(), std::move(argTypes));
             var = original.createReference(parameter.name);
         } else {
             var = new PSC::Variable(parameter.name, argRes->type, false, functionCtx.get());
